@@ -92,7 +92,8 @@ def main():
                 if why:
                     fails.append({"what": "%s 0x%04X %s: %s" % (ver, code, table[code], why), "capture": s.capture.hex(), "keylog": s.keylog,
                                   "client_plaintext": s.conn.plaintext(False).hex(), "server_plaintext": s.conn.plaintext(True).hex(), "scenario": describe(s)})
-                if m:
+                if m and len(s.packets) <= 400:       # the list-based model is quadratic in the number of buffered packets
+                    hist["model_runs"] += 1
                     mt = tlsgen.canon_model(tlsgen.run_model(m, impl, s.capture, s.keylog, s.opts))
                     if mt != it:
                         disagreements.append({"what": "%s 0x%04X %s" % (ver, code, table[code]), "model": mt[:120], "impl": it[:120], "capture": s.capture.hex(), "keylog": s.keylog})
@@ -102,7 +103,7 @@ def main():
         ck.cov["oracle_queries"] = m.queries
         m.close()
     impl.cleanup()
-    ck.cov["traces_validated_against_impl"] = ck.cov["evaluations"]
+    ck.cov["traces_validated_against_impl"] = hist["model_runs"]
     ck.cov["rule"] = ("one connection per capture from the reference sender: version x table suite valid for it (quick: one per protection class and MAC, rotating "
                       "with the seed, + 10 random; thorough: all, 3 histories each) x handshake shape x session-id length x extensions x encrypt-then-MAC x "
                       "TLS 1.3 handshake secrets in/out of the log x record padding x 0..20 application records of lengths 0..16384 in random direction order x "
